@@ -161,6 +161,14 @@ def impl_part(ctx):
         r = run_lock(n, rounds, breaker, strat, counter_mode=counter_mode, resets=nres, exc_kind=ek)
         record(r, {"kind": "lock", "n": n, "rounds": rounds, "breaker": breaker, "mode": "pct" if i % 2 else "random",
                    "counter_mode": counter_mode, "resets": nres, "exc_kind": ek, "choices": r["choices"]})
+    # (c) long queues: 40 callers on one lock / counter (direct oracles only; the trace specification is configured for 4 threads)
+    for i in range(2 if ctx.quick else 10):
+        for cm in (False, True):
+            seed = rng.randrange(1 << 30)
+            r = run_lock(40, 1, None if cm else ("t1", 1) if i % 2 else None, ds.RandomStrategy(seed), counter_mode=cm, max_steps=200000)
+            ctx.case(("run-long-queue", cm, seed))
+            check_run(ctx, r, {"kind": "lock", "n": 40, "rounds": 1, "breaker": ("t1", 1) if (i % 2 and not cm) else None, "mode": "random",
+                               "counter_mode": cm, "choices": r["choices"] if len(r["choices"] or []) < 6000 else None})
     validate_traces(ctx, traces, scens)
     if traces:
         ctx.sample({"real_trace_excerpt": traces[-1]["evs"][:12], "breaker": traces[-1]["breaker"]})
